@@ -318,13 +318,19 @@ def malformed_cases():
     cases.append(("inventory restoration tau of a wrong type", lambda: scen.build_model(tb, dict(cfg, restoration_tau="60"))))
     cases.append(("inventory restoration dict missing a sector", lambda: scen.build_model(tb, dict(cfg, restoration_tau={"agri": 60}))))
 
-    def ev(**over):
+    def ev(_mode="one", **over):
         def f():
             base = corpus.rec_event(tb, cfg)
             base.update(over)
-            sim = scen.build_sim(corpus.mk_sc(tb, cfg, [base], T=10))
+            sim = scen.build_sim(corpus.mk_sc(tb, cfg, [base], T=10, events_mode=_mode))
             quiet_loop(sim)
         return f
+    # the same schedule / label checks whichever way the event reaches the simulation
+    for _m, _how in (("list", "add_events"), ("ctor", "events_list of the constructor")):
+        cases.append((f"occurrence beyond the horizon ({_how})", ev(_m, occ=11)))
+        cases.append((f"occurrence + duration beyond the horizon ({_how})", ev(_m, occ=8, dur=5)))
+        cases.append((f"unknown region ({_how})", ev(_m, impact={"rZ|agri": 5.0})))
+        cases.append((f"unknown sector ({_how})", ev(_m, impact={"rA|nosuch": 5.0})))
     cases.append(("recovery tau zero", ev(recovery_tau=0)))
     cases.append(("recovery tau negative", ev(recovery_tau=-3)))
     cases.append(("recovery tau non-integer", ev(recovery_tau=2.5)))
@@ -547,6 +553,19 @@ def explore_c15(tier, seed):
                 res["samples"].append({"scenario": scen.summarize(sc), "perm": perm})
             for v in paired.cmp_records("C15", base, twin, "labelled inputs given in another order (bitwise)"):
                 res["violations"].append({"violation": v, "scenario": sc, "perm": perm})
+            # the table stored sector-major (reg1/a, reg2/a, ..., reg1/b, ...): regions and sectors each appear in
+            # alphabetical order, the industries do not
+            m_, n_, k_ = sc["table"]["m"], sc["table"]["n"], sc["table"]["k"]
+            if m_ > 1 and n_ > 1:
+                sm = [r * n_ + s_ for s_ in range(n_) for r in range(m_)]
+                perm2 = {"rows": sm, "cols": sm, "ycols": [r * k_ + c_ for c_ in range(k_) for r in range(m_)]}
+                try:
+                    twin2, _m2 = run_permuted(sc, perm2, dict_order, capital_perm, rng.randrange(1 << 30))
+                    res["paired_runs"] += 1
+                    for v in paired.cmp_records("C15", base, twin2, "table stored sector-major (bitwise)"):
+                        res["violations"].append({"violation": v, "scenario": sc, "perm": perm2})
+                except Exception as e:
+                    viol(res, "C15", f"sector-major table fails: {type(e).__name__}: {str(e)[:150]}", case=scen.summarize(sc))
             if "error" not in base and base["columns"] != sorted(base["columns"]):
                 viol(res, "C15", "industries not reported in lexicographic (region, sector) order")
             # ingestion obligations: the canonical model arrays are those of the canonically ordered input, exactly
@@ -682,10 +701,20 @@ def explore_c16(tier, seed):
             try:
                 sc2 = copy.deepcopy(sc)
                 sc2["sim"].update({"register_stocks": reg, "save_records": saved})
+                if i == 0:
+                    # a simulation that saves "all" records without registering stocks exists in the process
+                    try:
+                        _other = Simulation(scen.build_model(sc["table"], sc["model"]), n_temporal_units_to_sim=sc["T"],
+                                            save_records="all", register_stocks=False, boario_output_dir=tempfile.mkdtemp(prefix="verif_c16o_"))
+                        del _other
+                    except Exception:
+                        pass
                 try:
                     sim = scen.build_sim(sc2, outdir=outdir)
                 except Exception as e:
                     bump(res, "build_error")
+                    viol(res, "C16", f"a simulation with register_stocks={reg}, save_records={saved} cannot be built: {type(e).__name__}: {str(e)[:120]}",
+                         case={"saved": saved, "stocks": reg})
                     continue
                 res["scenarios"] += 1
                 bump(res, f"{stream}/{'manual' if manual else 'loop'}/saved={len(saved)}/stocks={reg}/stop={stop_early}")
@@ -1004,6 +1033,37 @@ def explore_c17(tier, seed):
                     break
         if len(res["samples"]) < 2:
             res["samples"].append({"history": hist[:30], "scenarios": [scen.summarize(sc) for sc in scs]})
+        # two simulations sharing one output directory under different result names, both saving records to files
+        try:
+            shared = tempfile.mkdtemp(prefix="verif_c17s_")
+            recs = ["production_realised", "final_demand_unmet"]
+            pair = []
+            for nm, sc_ in (("runA", scs[0]), ("runB", scs[1])):
+                mdl = scen.build_model(sc_["table"], sc_["model"])
+                sm = Simulation(mdl, n_temporal_units_to_sim=sc_["T"], boario_output_dir=shared, results_dir_name=nm, save_records=list(recs))
+                for e_ in sc_["events"]:
+                    sm.add_event(scen.build_event(e_))
+                pair.append(sm)
+            try:
+                quiet_loop(pair[0])
+            except Exception:
+                pass
+            seen_a = {r: getattr(pair[0], r).to_numpy(dtype=float).copy() for r in recs}
+            try:
+                quiet_loop(pair[1])
+            except Exception:
+                pass
+            res["paired_runs"] += 1
+            for r in recs:
+                now_a = getattr(pair[0], r).to_numpy(dtype=float)
+                if not np.array_equal(seen_a[r], now_a, equal_nan=True):
+                    viol(res, "C17", f"record {r} of a finished simulation changed when another simulation (same output directory, another results_dir_name) ran",
+                         case={"records": recs})
+                    break
+            del pair
+            shutil.rmtree(shared, ignore_errors=True)
+        except Exception as e:
+            viol(res, "C17", f"two simulations sharing an output directory under different result names cannot be built / run: {type(e).__name__}: {str(e)[:120]}")
         # stocks record of the simulations that registered it
         for j, sc in enumerate(scs):
             if sims[j] is not None and sc["sim"].get("register_stocks"):
@@ -1020,7 +1080,9 @@ def explore_c17(tier, seed):
                 setattr(Simulation, k, copy.deepcopy(v))        # restore so that the rest of the exploration is not polluted
         # inputs untouched + event reuse
         sc = scs[0]
-        io = scen.build_table(sc["table"])
+        _N = sc["table"]["m"] * sc["table"]["n"]
+        _rp = random.Random(s + 7).sample(range(_N), _N)          # the caller's table lists its industries in any order
+        io = scen.build_table(sc["table"], perm={"rows": _rp, "cols": _rp, "ycols": None})
         snaps = {nm: deep_snapshot(getattr(io, nm)) for nm in ("Z", "Y", "x", "A")}
         cfg = copy.deepcopy(sc["model"])
         containers = {}
